@@ -323,6 +323,12 @@ let counter () =
   let c = extpkg.NewCounter ()
   extpkg.Bump c 5
 
+let trip3 () =
+  (7, "t", true)
+
+let pair2 (a:int) =
+  (a, "p")
+
 let tagFull () =
   ExtTag<string> true 2
 
@@ -398,6 +404,8 @@ let xTwoPiped () =
 	cl.WriteString("\tfmt.Println(callsFull(), callsPartial(), callsPiped(), callsExplicit(), callsInferred(), callsUnit())\n\tcallsProc()\n")
 	cl.WriteString("\tfmt.Println(callsTriple0(), callsTriple1(), callsTriple2(), callsTriplePipe())\n")
 	cl.WriteString("\tfmt.Println(callsPkg(), callsPkgPartial(), callsPkgPipe(), counter(), callsComputed())\n")
+	// tuples are frt.Tuple2 / frt.Tuple3 values with fields E0, E1, E2
+	cl.WriteString("\tvar t3 frt.Tuple3[int, string, bool] = trip3()\n\tvar t2 frt.Tuple2[int, string] = pair2(9)\n\tfmt.Println(t3.E0, t3.E1, t3.E2, t2.E0, t2.E1)\n")
 	// a PARTIAL explicit type-argument list: the leading type parameters are given, the rest is inferred by Go
 	cl.WriteString("\tfmt.Printf(\"%T/%d %T/%d %T/%d\\n\", tagFull(), len(tagFull()), tagPartial(), len(tagPartial()), tagPiped(), len(tagPiped()))\n")
 	// results that are functions (a parenthesised function type at the end of a signature is a Go func
@@ -406,7 +414,7 @@ let xTwoPiped () =
 	exp.WriteString("ExtAdd(1,2) ExtAdd(10,5) ExtAdd(4,3) ExtShow(7) ExtShow(s) 99\nExtProc(p)\n")
 	exp.WriteString("1/w/true 1/x/true 2/y/false 3/z/true\n")
 	exp.WriteString("42 a+b+c p+q+r 105 ExtAdd(7,5)/ExtAdd(7,8)\n")
-	exp.WriteString("[]string/2 []bool/3 []int/1\n")
+	exp.WriteString("7 t true 9 p\n[]string/2 []bool/3 []int/1\n")
 	exp.WriteString("log A b 1\nlog B : 2\nprint C 3\nprint d e\n13 11\nnest 4 1 n\n")
 	return foB.String(), cl.String(), exp.String(), unions, recs
 }
